@@ -87,3 +87,60 @@ package bitcoin
 //@   assert call:Chain.GetTransactionMerkleProof@2 : [coinbase-proof-is-for-the-transaction-block] arg0 == coinbaseTxHash && arg1 == txBlockHeight
 //@   ensures [proof-is-returned-only-with-enough-confirmations-and-all-parts] err == nil ==> result0 != nil && result1 != nil
 //@   ensures [nothing-is-returned-on-error] err != nil ==> result0 == nil && result1 == nil
+
+// ---------------------------------------------------------------------------
+// C27 (rejection half): no transaction is produced unless every input's
+// signature verified against that input's signature hash.
+//@ ghost verifiedOK int
+//@ assume func crypto/ecdsa.Verify
+//@   modifies ghost.verifiedOK
+//@   ensures ghost.verifiedOK == old(ghost.verifiedOK) + ite(result, 1, 0)
+
+//@ func TransactionBuilder.AddSignatures
+//@   property C27
+//@   opt noframe 1
+//@   opt safe index slice
+//@   requires tb != nil && tb.internal != nil
+//@   requires [hashes-were-computed-for-the-current-inputs] len(tb.sigHashes) == 0 || (len(tb.sigHashes) == len(tb.internal.TxIn) && len(tb.sigHashArgs) == len(tb.internal.TxIn))
+//@   requires forall k int :: 0 <= k && k < len(signatures) ==> signatures[k] != nil
+//@   modifies ghost.verifiedOK, alloc
+//@   ensures [a-transaction-is-produced-only-if-every-input-signature-verified] err == nil ==> ghost.verifiedOK == old(ghost.verifiedOK) + len(signatures) && len(signatures) == len(old(tb.internal.TxIn))
+//@   ensures [nothing-is-produced-on-error] err != nil ==> result0 == nil
+//@   assert call:Verify : [input-i-is-checked-with-its-own-signature-and-hash] arg0 == signatures[i].PublicKey && arg2 == signatures[i].R && arg3 == signatures[i].S && 0 <= i && i < len(tb.sigHashes)
+//@   loop 1 invariant ghost.verifiedOK == old(ghost.verifiedOK) + rangeidx1
+
+// ---------------------------------------------------------------------------
+// C29 (byte order and length framing parts).
+//@ func NewHash
+//@   property C29
+//@   opt noframe 1
+//@   ensures [only-32-byte-hashes] (err == nil) <==> (len(hash) == 32)
+//@   ensures [internal-order-copies] err == nil && byteOrder == InternalByteOrder ==> (forall k int :: 0 <= k && k < 32 ==> result0[k] == hash[k])
+//@   ensures [reversed-order-mirrors] err == nil && byteOrder == ReversedByteOrder ==> (forall k int :: 0 <= k && k < 32 ==> result0[k] == hash[31 - k])
+//@   requires byteOrder == InternalByteOrder || byteOrder == ReversedByteOrder
+
+//@ func Hash.Hex
+//@   property C29
+//@   opt noframe 1
+//@   requires byteOrder == InternalByteOrder || byteOrder == ReversedByteOrder
+//@   assert call:EncodeToString@1 : [internal-order-encodes-the-bytes-as-they-are] len(arg0) == 32 && (forall k int :: 0 <= k && k < 32 ==> arg0[k] == old(h)[k])
+//@   assert call:EncodeToString@2 : [reversed-order-encodes-the-mirrored-bytes] len(arg0) == 32 && (forall k int :: 0 <= k && k < 32 ==> arg0[k] == old(h)[31 - k])
+//@   loop 1 invariant 0 <= i && i <= 16 && (forall k int :: 0 <= k && k < i ==> h[k] == old(h)[31 - k] && h[31 - k] == old(h)[k]) && (forall k int :: i <= k && k <= 31 - i ==> h[k] == old(h)[k])
+
+//@ lemma reversing-twice-is-the-identity: forall a mapof[int]int, k int :: 0 <= k && k < 32 ==> a[31 - (31 - k)] == a[k]
+//@   property C29
+
+//@ spec func compactLen(n int) int
+//@ assume func readCompactSizeUint
+//@   ensures err == nil ==> result1 >= 1 && result1 <= 9 && result1 <= len(arg0) && result0 >= 0
+//@ func NewScriptFromVarLenData
+//@   property C29
+//@   opt noframe 1
+//@   opt safe index slice
+//@   ensures [script-is-the-data-after-a-prefix-that-states-its-exact-length] err == nil ==> (exists p int :: 1 <= p && p <= 9 && p <= len(varLenData) && len(result0) == len(varLenData) - p && (forall k int :: 0 <= k && k < len(result0) ==> result0[k] == varLenData[p + k]))
+//@ assume func writeCompactSizeUint
+//@   ensures err == nil ==> len(result0) >= 1 && len(result0) <= 9
+//@ func Script.ToVarLenData
+//@   property C29
+//@   opt noframe 1
+//@   ensures [var-len-data-is-a-prefix-followed-by-the-script] err == nil ==> (exists p int :: 1 <= p && p <= 9 && len(result0) == p + len(s) && (forall k int :: 0 <= k && k < len(s) ==> result0[p + k] == s[k]))
